@@ -618,7 +618,7 @@ theorem cif_roundtrip_aux (env : Env) (lenv : LoadEnv) (a : Atoms) (useFract : B
     (hsave : saveCif env a useFract = .ok b)
     (hlab : ∀ r ∈ a.atoms, endsWithDigit (elemOf a r) = false)
     (hextra : extraLabelsOk a = true)
-    (hq : ∀ r ∈ a.atoms, parseFloat (env.reprQ r.charge) = some r.charge)
+    (hq : ∀ r ∈ a.atoms, tofloat (env.reprQ r.charge) = some r.charge)
     (hmass : ∀ r ∈ a.atoms, (lenv.massOf (elemOf a r)).isSome = true)
     (hcell : ∀ c, a.cell = some c → (lenv.cellOf ((env.cellpar c).toList.map stripSu)).isSome = true) :
     loadCif lenv b = .ok (normCif env lenv a useFract) := by
@@ -645,7 +645,7 @@ theorem cif_roundtrip_aux (env : Env) (lenv : LoadEnv) (a : Atoms) (useFract : B
     · exact ⟨_, _, _, h, by decide⟩
     · exact ⟨_, _, _, h, by decide⟩
   obtain ⟨k0, k1, _, _, _, k5, klt, khas, kx⟩ := S.atom_cols c1 c2 c3 hc3
-  have hcharge : allSome ((a.atoms.map (fun r => env.reprQ r.charge)).map parseFloat) = some (a.atoms.map (·.charge)) := by
+  have hcharge : allSome ((a.atoms.map (fun r => env.reprQ r.charge)).map tofloat) = some (a.atoms.map (·.charge)) := by
     rw [List.map_map]
     apply allSome_map_some
     intro r hr
@@ -840,5 +840,88 @@ theorem cartn_branch_aux (lenv : LoadEnv) (b : Block) (r : Atoms)
             subst hb
             simp only [placePositions]
             exact map_pos_zip4 _ _ _ _ raw.length hn.2.1 rfl hn.2.2.1 hn.2.2.2
+
+/-! ## the charges: read through `tofloat` like the coordinates (s.u. stripped) -/
+
+/-- a number followed by one `(digits)` group reads as the number -/
+theorem tofloat_su (pre d : List Char) (hp : '(' ∉ pre) (hne : d ≠ []) (hd : ∀ c ∈ d, c.isDigit = true) :
+    tofloat (String.ofList (pre ++ '(' :: (d ++ [')']))) = parseFloatL pre := by
+  simp only [tofloat, String.toList_ofList]
+  have := stripSuL_group pre d [] hp hne hd
+  rw [this]
+  simp [stripSuL, stripGo]
+
+theorem map_charge_zip4 (tys : List Nat) (pos : List Vec3) (qs : List Rat) (xs : List (List String)) (n : Nat)
+    (h1 : tys.length = n) (h2 : pos.length = n) (h3 : qs.length = n) (h4 : xs.length = n) :
+    ((tys.zip (pos.zip (qs.zip xs))).map (fun (t, p, q, x) =>
+        ({ ty := t, pos := p, charge := q, group := 0, extra := x } : AtomRow))).map (·.charge) = qs := by
+  rw [List.map_map]
+  have : ((fun r : AtomRow => r.charge) ∘ fun (x : Nat × Vec3 × Rat × List String) =>
+      ({ ty := x.1, pos := x.2.1, charge := x.2.2.1, group := 0, extra := x.2.2.2 } : AtomRow))
+      = (fun x => x.2.2.1) := rfl
+  rw [this]
+  have e1 : (tys.zip (pos.zip (qs.zip xs))).map (fun x => x.2.2.1)
+      = (((tys.zip (pos.zip (qs.zip xs))).map Prod.snd).map Prod.snd).map Prod.fst := by
+    simp [List.map_map, Function.comp_def]
+  rw [e1, List.map_snd_zip (by simp; omega), List.map_snd_zip (by simp; omega), List.map_fst_zip (by omega)]
+
+/-- what `loadParts` took as charges when the charge column is present -/
+theorem loadParts_charges (lenv : LoadEnv) (b : Block) (n : Nat) (p : Parts) (hhas : b.has chargeTag = true)
+    (hp : loadParts lenv b n = some p) :
+    ∃ cs, b.col? chargeTag = some cs ∧ allSome (cs.map tofloat) = some p.charges := by
+  unfold loadParts at hp
+  simp only [hhas, if_true, Option.bind_eq_bind] at hp
+  obtain ⟨names, _, hp⟩ := Option.bind_eq_some_iff.mp hp
+  obtain ⟨els, _, hp⟩ := Option.bind_eq_some_iff.mp hp
+  obtain ⟨charges, hq, hp⟩ := Option.bind_eq_some_iff.mp hp
+  obtain ⟨cs, hcs, hq⟩ := Option.bind_eq_some_iff.mp hq
+  obtain ⟨ltags, _, hp⟩ := Option.bind_eq_some_iff.mp hp
+  obtain ⟨xcols, _, hp⟩ := Option.bind_eq_some_iff.mp hp
+  obtain ⟨xrows, _, hp⟩ := Option.bind_eq_some_iff.mp hp
+  obtain ⟨bonds, _, hp⟩ := Option.bind_eq_some_iff.mp hp
+  obtain ⟨angles, _, hp⟩ := Option.bind_eq_some_iff.mp hp
+  obtain ⟨dih, _, hp⟩ := Option.bind_eq_some_iff.mp hp
+  obtain ⟨cell, _, hp⟩ := Option.bind_eq_some_iff.mp hp
+  obtain ⟨tys, _, hp⟩ := Option.bind_eq_some_iff.mp hp
+  obtain ⟨masses, _, hp⟩ := Option.bind_eq_some_iff.mp hp
+  simp only [Option.pure_def, Option.some.injEq] at hp
+  subst hp
+  exact ⟨cs, hcs, hq⟩
+
+/-- the charges of the structure read are the numbers of the charge column with every `(digits)` group removed -/
+theorem charge_su_aux (lenv : LoadEnv) (b : Block) (r : Atoms)
+    (hhas : b.has chargeTag = true) (h : loadCif lenv b = .ok r) :
+    ∃ cs, b.col? chargeTag = some cs ∧ allSome (cs.map tofloat) = some (r.atoms.map (·.charge)) := by
+  unfold loadCif at h
+  split at h
+  · cases h
+  · cases hb : loadBody lenv b with
+    | none => simp [hb] at h
+    | some r' =>
+      simp only [hb, Except.ok.injEq] at h
+      subst h
+      unfold loadBody at hb
+      cases hrc : readCoords b with
+      | none => simp [hrc] at hb
+      | some pr =>
+        obtain ⟨fr, raw⟩ := pr
+        simp only [hrc] at hb
+        cases hp : loadParts lenv b raw.length with
+        | none => simp [hp] at hb
+        | some parts =>
+          simp only [hp] at hb
+          obtain ⟨cs, hcs, hq⟩ := loadParts_charges lenv b raw.length parts hhas hp
+          refine ⟨cs, hcs, ?_⟩
+          unfold assemble at hb
+          split at hb
+          · cases hb
+          · rename_i hn
+            simp only [not_or, not_not, ne_eq] at hn
+            simp only [Option.some.injEq] at hb
+            subst hb
+            rw [hq]
+            congr 1
+            exact (map_charge_zip4 _ _ _ _ raw.length hn.2.1 (by
+              cases fr <;> cases parts.cell <;> simp [placePositions]) hn.2.2.1 hn.2.2.2).symm
 
 end Mofun.Cif
